@@ -41,7 +41,8 @@ fn gen_scm(src: &mut Src, tier: Tier) -> Case {
             2 => gen_class(src, &cfg),
             _ => Node::Esc(*src.pick(b"dwsDWS")),
         };
-        let (min, max) = *src.pick(&[(0, None), (1, None), (0, Some(1)), (1, Some(2)), (0, Some(2)), (2, Some(3)), (2, None), (1, Some(1)), (0, Some(3))]);
+        // counts above 5 are not unrolled by the optimizer: the loop instruction itself must count them
+        let (min, max) = *src.pick(&[(0, None), (1, None), (0, Some(1)), (1, Some(2)), (0, Some(2)), (2, Some(3)), (2, None), (1, Some(1)), (0, Some(3)), (6, Some(8)), (6, Some(6)), (7, None), (5, Some(9)), (6, Some(7))]);
         let q = Node::Quant { body: Box::new(body), min, max, lazy: src.chance(1, 2), braces: src.chance(1, 3) };
         items.push(match src.weighted(&[6, 2, 1, 1]) {
             0 => q,
@@ -59,7 +60,19 @@ fn gen_scm(src: &mut Src, tier: Tier) -> Case {
         node = Node::Cat(vec![Node::Dot, node]);
     }
     let pat = Printer::print(&node, fl.mode);
-    let hay = if src.chance(1, 2) { witness_hay(src, &node, fl, &alpha, 3) } else { gen_hay(src, &alpha, if tier == Tier::Quick { 10 } else { 14 }) };
+    let hay = match src.below(3) {
+        0 => witness_hay(src, &node, fl, &alpha, 3),
+        1 => {
+            // long runs of one character (more than any finite max) followed by a little noise
+            let c = *src.pick(&alpha);
+            let mut v: Vec<u32> = (0..src.range(5, 14)).map(|_| c).collect();
+            for _ in 0..src.below(4) {
+                v.push(*src.pick(&alpha));
+            }
+            cps_to_string(&v)
+        }
+        _ => gen_hay(src, &alpha, if tier == Tier::Quick { 10 } else { 14 }),
+    };
     let start = gen_start(src, &hay);
     Case { pat, flags: fl.text(), hay, hay16: vec![], start, x: serde_json::Value::Null }
 }
